@@ -35,7 +35,7 @@ ASSUMPTIONS = [
 ]
 MUST_SEE = ["replace_depth_ge2", "remove_middle_of_sequence", "op_on_stale", "twins", "ops_ok", "replace_with_node", "replace_with_none", "transform_visitor", "transformer_execute", "attach_detached_subtree", "duplicate", "checks_deep", "twin_sequences"]
 CONFIG = {
-    "quick": {"shards": 16, "histories": 25, "ops": 30, "watchdog_s": 600},
+    "quick": {"shards": 16, "histories": 100, "ops": 30, "watchdog_s": 600},
     "thorough": {"shards": 32, "histories": 400, "ops": 50, "watchdog_s": 3400},
 }
 
